@@ -348,6 +348,66 @@ def instance_event_part(_):
     return res
 
 
+def cascade_part(_):
+    """A flow that loses in one loop takes its children down - also a child that competes in ANOTHER loop in the same
+    step.  Whatever the order in which the loops are resolved: a flow may only lose to a flow that really proceeds."""
+    res = {"cascade_programs": 0, "cascade_outcomes": 0, "viol": []}
+    spec = {"hi": "E(k=1, m=2)", "lo": "E(k=1)"}
+    for pq, cd, order, child_first in itertools.product(("q-wins", "p-wins", "tie"), ("c-wins", "d-wins", "tie"),
+                                                        itertools.permutations(("p", "d", "q")), (True, False)):
+        mp, mq = {"q-wins": ("lo", "hi"), "p-wins": ("hi", "lo"), "tie": ("hi", "hi")}[pq]
+        mc, md = {"c-wins": ("hi", "lo"), "d-wins": ("lo", "hi"), "tie": ("hi", "hi")}[cd]
+        p_body = ["start c", f"match {spec[mp]}", "start ActPAction()", "match Never()"] if child_first else \
+                 ["start c", f"match {spec[mp]}", "start ActPAction()", "match Never()"]
+        src = ("flow p\n" + "".join("  " + l + "\n" for l in p_body) + "\n"
+               + f'@loop("L2")\nflow c\n  match {spec[mc]}\n  start ActCAction()\n  match Never()\n\n'
+               + f'@loop("L2")\nflow d\n  match {spec[md]}\n  start ActDAction()\n  match Never()\n\n'
+               + f"flow q\n  match {spec[mq]}\n  start ActQAction()\n  match Never()\n\n"
+               + "flow main\n" + "".join(f"  start {f}\n" for f in order) + "  match Never()\n")
+        if not child_first:
+            continue
+        info = {"engine": "C05-cascade", "source": src, "pq": pq, "cd": cd, "order": list(order)}
+        try:
+            st = v2x.init_state(src)
+            v2x.step(st, v2x.resolve_event(st, ("start_main",)), [], v2x.UIDS.n)
+            outcomes = list(_all_outcomes(st, v2x.UIDS.n, {"type": "E", "k": 1, "m": 2}))
+        except Exception as e:
+            res["viol"].append(("cascade:interpreter-raised", f"{type(e).__name__}: {str(e)[:120]}", info))
+            continue
+        res["cascade_programs"] += 1
+        for vec, st2, _n in outcomes:
+            res["cascade_outcomes"] += 1
+            alive = {f: sm.is_listening_flow(st2.flow_id_states[f][-1]) for f in "pcdq"}
+            started = {e["type"][8:9].lower() for e in st2.outgoing_events if e["type"].startswith("StartAct")}
+            stopped = {e["type"][7:8].lower() for e in st2.outgoing_events if e["type"].startswith("StopAct")}
+            what = None
+            for f in "pcdq":
+                if f in started and not alive[f] and f not in stopped:
+                    what = f"flow {f} is over after the step but the action it started in this step was not stopped"
+            if what is None and alive["p"] == alive["q"]:
+                what = f"main loop: p and q compete for different actions, exactly one must proceed: alive {alive}"
+            if what is None and alive["c"] == alive["d"]:
+                what = (f"loop L2: c and d compete for different actions; c is {'alive' if alive['c'] else 'over'} and d is {'alive' if alive['d'] else 'over'} "
+                        f"(p {'proceeded' if alive['p'] else 'lost, which ends its child c'}): exactly one of them must proceed")
+            if what is None and alive["c"] and not alive["p"]:
+                what = "c is still running although its parent p is over"
+            if what:
+                kind = "child-of-loser" if not alive["p"] else "child-of-winner"
+                if not alive["p"] and "c" in started and "c" in stopped and not alive["d"] and what.startswith("loop L2"):
+                    # L2 was resolved before the main loop: c beat d, then lost its parent
+                    kind = "winner-taken-down-by-its-parent-losing-later-in-the-same-step"
+                res["viol"].append((f"cascade:{kind}",
+                                    f"[{pq}, {cd}, started {list(order)}, tie-break {list(vec)}] {what}; events {[e['type'] for e in st2.outgoing_events]}", dict(info, vector=list(vec))))
+                break
+    seen, uniq = set(), []
+    for v in res["viol"]:
+        if v[0] not in seen:
+            seen.add(v[0])
+            uniq.append(v)
+    res["viol"] = uniq
+    return res
+
+
 def run(rep, tier):
     from vf.e1run import run_e1
     import vf.props.c05 as me
@@ -364,12 +424,25 @@ def run(rep, tier):
         rep.set("instance_event_outcomes", r["instance_event_outcomes"])
         for sig, what, info in r["viol"]:
             rep.violation(sig, what, info)
+    for r in par.pmap(cascade_part, [0]):
+        rep.set("cascade_programs", r["cascade_programs"])
+        rep.set("cascade_outcomes", r["cascade_outcomes"])
+        for sig, what, info in r["viol"]:
+            rep.violation(sig, what, info)
     rep.set("rule", "non-trivial = a step in which >=2 fitting flows competed in one loop (competitions)")
     rep.set("distinct_nontrivial", rep.cov.get("competitions", 0))
     rep.set("evaluations", rep.cov.get("transitions", 0))
 
 
 def replay(rp):
+    if rp.get("engine") == "C05-cascade":
+        print(rp["source"])
+        st = v2x.init_state(rp["source"])
+        v2x.step(st, v2x.resolve_event(st, ("start_main",)), [], v2x.UIDS.n)
+        for vec, st2, _n in _all_outcomes(st, v2x.UIDS.n, {"type": "E", "k": 1, "m": 2}):
+            print("tie-break", vec, "->", [e["type"] for e in st2.outgoing_events], {f: st2.flow_id_states[f][-1].status.name for f in "pcdq"})
+        print(rp.get("what"))
+        return 0
     if rp.get("engine") == "C05-inst":
         print(rp["source"])
         r = instance_event_part(0)
